@@ -93,12 +93,14 @@ pub struct CoreInner {
     pub meta_faults: FaultMode,
     pub rules: Vec<Rule>,
     pub blocked: Vec<(usize, usize)>, // (from, to) pairs whose datagrams are dropped (partition)
+    pub blocked_user: Vec<(usize, usize)>, // same, user traffic only (discovery still works)
     pub rng: StdRng,
     pub fragment_size: usize,
     pub log_meta: bool,
     pub zero_delay_run: u32,
     pub steps: u64,
     pub hold_user: bool, // hold all user datagrams in flight (released by the scenario)
+    pub epoch_ns: i64,   // start of the current scenario: logged times are relative to it
 }
 
 #[derive(Clone)]
@@ -123,12 +125,14 @@ impl Core {
             meta_faults: FaultMode::default(),
             rules: Vec::new(),
             blocked: Vec::new(),
+            blocked_user: Vec::new(),
             rng: StdRng::seed_from_u64(seed),
             fragment_size,
             log_meta: false,
             zero_delay_run: 0,
             steps: 0,
             hold_user: false,
+            epoch_ns: START_SEC * NS,
         })))
     }
     pub fn lock(&self) -> std::sync::MutexGuard<'_, CoreInner> {
@@ -139,7 +143,7 @@ impl Core {
     }
     pub fn log(&self, v: Value) {
         let mut c = self.lock();
-        let t = c.now_ns - START_SEC * NS;
+        let t = c.now_ns - c.epoch_ns;
         let mut v = v;
         if v.get("t").is_none() {
             v["t"] = json!(t);
@@ -188,7 +192,7 @@ impl Future for SimSleep {
                 c.timers.push(TimerEntry { id, deadline, waker: Some(cx.waker().clone()) });
                 if self.log {
                     let task = c.current_task;
-                    let t = c.now_ns - START_SEC * NS;
+                    let t = c.now_ns - c.epoch_ns;
                     let dur = self.dur_ns;
                     c.log.push(json!({"ev": "Sleep", "task": task, "d": dur, "t": t}));
                     if dur == 0 {
@@ -378,7 +382,7 @@ impl WriteMessage for SimWriter {
             let d = Datagram { id, from: self.k, to, meta, bytes: bytes.clone(), deliver_at: now,
                                kinds: kinds.clone(), decided: false, desc: desc.clone() };
             if is_user || c.log_meta {
-                let t = now - START_SEC * NS;
+                let t = now - c.epoch_ns;
                 let mut ev = json!({"ev": "Send", "id": id, "from": self.k, "to": to, "meta": meta, "t": t});
                 ev["subs"] = desc["subs"].clone();
                 c.log.push(ev);
@@ -525,12 +529,12 @@ impl Sim {
                 return false;
             };
             let mut d = c.inflight.remove(pos);
-            let t = now - START_SEC * NS;
+            let t = now - c.epoch_ns;
             let logit = !d.meta || c.log_meta;
             if !c.parts[d.to].alive {
                 return true;
             }
-            if c.blocked.contains(&(d.from, d.to)) {
+            if c.blocked.contains(&(d.from, d.to)) || (!d.meta && c.blocked_user.contains(&(d.from, d.to))) {
                 if logit {
                     c.log.push(json!({"ev": "Drop", "id": d.id, "to": d.to, "why": "partition", "t": t}));
                 }
@@ -584,7 +588,8 @@ impl Sim {
                     d.decided = true;
                     // a delayed copy is exempt from further random delay decisions only by chance
                     if logit {
-                        c.log.push(json!({"ev": "Delay", "id": d.id, "to": d.to, "until": d.deliver_at - START_SEC * NS, "t": t}));
+                        let until = d.deliver_at - c.epoch_ns;
+                        c.log.push(json!({"ev": "Delay", "id": d.id, "to": d.to, "until": until, "t": t}));
                     }
                     c.inflight.push(d);
                     return true;
@@ -665,7 +670,7 @@ impl Sim {
             iters += 1;
             if iters > max_steps {
                 let c = self.core.lock();
-                return Err(SimError::Hang(format!("step budget {max_steps} exceeded at t={} ready={:?} timers={:?} inflight={} tasks={}", c.now_ns - START_SEC * NS, c.ready, c.timers.iter().map(|t| (t.id, t.deadline - c.now_ns, t.waker.is_some())).collect::<Vec<_>>(), c.inflight.len(), c.tasks.len())));
+                return Err(SimError::Hang(format!("step budget {max_steps} exceeded at t={} ready={:?} timers={:?} inflight={} tasks={}", c.now_ns - c.epoch_ns, c.ready, c.timers.iter().map(|t| (t.id, t.deadline - c.now_ns, t.waker.is_some())).collect::<Vec<_>>(), c.inflight.len(), c.tasks.len())));
             }
             if self.core.lock().zero_delay_run > 10_000 {
                 return Err(SimError::Hang("worker requests zero delays forever".into()));
@@ -686,7 +691,7 @@ impl Sim {
             if self.step_time(limit) {
                 continue;
             }
-            return Err(SimError::Deadlock(format!("nothing runnable at t={}", self.core.now_ns() - START_SEC * NS)));
+            return Err(SimError::Deadlock(format!("nothing runnable at t={}", self.core.now_ns() - self.core.lock().epoch_ns)));
         }
     }
 
